@@ -39,13 +39,14 @@ V_NONDET_FN(uint32_t); V_NONDET_FN(int32_t); V_NONDET_FN(ptrdiff_t);
    the harness must overwrite every pointer member it relies on) */
 #define V_NEW(T, p) \
   T *p = (T *)malloc(sizeof(T)); __CPROVER_assume(p != 0); \
-  { T p##_val = nondet_##T(); *p = p##_val; }
+  { T nondet_##T(void); T p##_val = nondet_##T(); *p = p##_val; }
 /* same for an object the harness already owns (global or local) */
-#define V_FILL(T, lv, tag) { T tag##_val = nondet_##T(); (lv) = tag##_val; }
+#define V_FILL(T, lv, tag) { T nondet_##T(void); T tag##_val = nondet_##T(); (lv) = tag##_val; }
 #define V_ASSUME(c) __CPROVER_assume(c)
 #define V_ASSERT(c, msg) __CPROVER_assert((c), msg)
 #define V_POST(c, msg) /* native only: the contract's ensures clause is the obligation */
-#define V_COVER(c) __CPROVER_cover(c)
+/* reachability witness: an assertion that is expected to FAIL (checked by the driver as a vacuity guard) */
+#define V_COVER(c) __CPROVER_assert(!(c), "V_COVER reachable: " #c)
 #define V_STATIC(file_c, fn) __CPROVER_file_local_##file_c##_##fn
 #define V_UNREACHABLE_STUB(msg) __CPROVER_assert(0, "harness-sanity: unexpected call: " msg)
 /* path ends here (error()/fatal()/longjmp): nothing after it is explored */
